@@ -291,6 +291,34 @@ def run(ctx):
         pass
     ctx.check(uses_escape and joins == {"."}, "C12.escape", "C12.escape:join", w.where(ff), bad_msg=f"nested keys: escape_key used={uses_escape}, join literals={sorted(joins)}")
 
+    ctx.rule("C12.case-fold", "matches_pattern hands BOTH the value and the pattern to matches_word / WildMatch after the same Unicode case folding "
+                              "(str::to_lowercase or to_uppercase): an ASCII-only folding makes `émile` miss `Émile`")
+    import json as _json
+    fmp = [g for g in w.all_fns() if g["path"].endswith("StrExt>::matches_pattern") and "body" in g]
+    if not fmp:
+        ctx.missing("C12.case-fold", "C12.case-fold:matches_pattern", "StrExt::matches_pattern not found")
+    else:
+        fmp = fmp[0]
+        bmp = fmp["body"]
+        dmp = PC.roots(bmp)
+        sinks = []
+        for _, c in M.calls(bmp):
+            nm = M.callee_name(c)
+            if nm.endswith("StrExt>::matches_word") or re.search(r"WildMatchPattern::<[^>]*>::(new|matches)$", nm):
+                for a in c["args"]:
+                    e = _json.dumps(PC.expr(bmp, dmp, a))
+                    if '["arg", 1]' in e or '["arg", 2]' in e:
+                        sinks.append((nm.rsplit("::", 1)[-1], e))
+        folds = set()
+        badf = []
+        for sink, e in sinks:
+            m_ = re.findall(r'"alloc::str::<impl str>::(to_lowercase|to_uppercase)"', e)
+            other = re.findall(r'::(to_ascii_lowercase|to_ascii_uppercase|make_ascii_lowercase|make_ascii_uppercase|eq_ignore_ascii_case)"', e)
+            if len(m_) != 1 or other:
+                badf.append((sink, (other or ["no Unicode case folding"])[0]))
+            folds.update(m_)
+        ctx.check(len(sinks) >= 4 and not badf and len(folds) == 1, "C12.case-fold", "C12.case-fold:matches_pattern", w.where(fmp),
+                  bad_msg=f"operands of the matchers that are not folded with one Unicode case mapping: {badf[:3]} (foldings used: {sorted(folds)}, operands seen: {len(sinks)})")
     ctx.rule("C12.flatten", "FlattenedJsonValue::from_json_value: null/bool/string keep their value, an integer is kept or the property is absent, and an array "
                             "is ALWAYS kept (elements that are not scalars are dropped one by one, never the array: `event_property_contains` must still see the scalars); "
                             "ScalarJsonValue::try_from_json_value maps null/bool/string/integer to themselves")
